@@ -411,10 +411,31 @@ def judgeLine (line : String) : String :=
 
 end GeomV.C05
 
+/-- all non-empty input lines -/
+partial def GeomV.C05.readLines (h : IO.FS.Stream) (acc : Array String) : IO (Array String) := do
+  let line ← h.getLine
+  if line.isEmpty then return acc
+  let l := (line.trimAscii).toString
+  GeomV.C05.readLines h (if l ≠ "" then acc.push l else acc)
+
+/-- `prepLine`/`judgeLine` are pure functions of one line, so the lines are processed in chunks on the thread
+pool (one output line per input line, printed in input order). -/
+def GeomV.C05.mapAll (f : String → String) (lines : Array String) (chunk : Nat := 16) : Array (Task (Array String)) :=
+  (Array.range ((lines.size + chunk - 1) / chunk)).map fun c =>
+    Task.spawn fun _ => (lines.extract (c * chunk) ((c + 1) * chunk)).map f
+
 open GeomV GeomV.C05 in
 def main (args : List String) : IO Unit := do
   let out ← IO.getStdout
   match args with
-  | ["prep"] => forEachLine fun l => out.putStrLn (prepLine l)
-  | ["judge"] => forEachLine fun l => out.putStrLn (judgeLine l)
+  | ["prep"] =>
+    let lines ← readLines (← IO.getStdin) #[]
+    for t in mapAll prepLine lines do
+      for v in t.get do out.putStrLn v
+  | ["judge"] =>
+    let lines ← readLines (← IO.getStdin) #[]
+    for t in mapAll judgeLine lines do
+      for v in t.get do out.putStrLn v
+  | ["prep1"] => forEachLine fun l => out.putStrLn (prepLine l)
+  | ["judge1"] => forEachLine fun l => out.putStrLn (judgeLine l)
   | _ => IO.eprintln "usage: geomv_c05 prep|judge"
